@@ -30,9 +30,10 @@ EXTENDS Integers, Sequences, FiniteSets, TLC, Json
 CONSTANTS EmitJson,
           AllowTruncFault   \* include the injected write failure after the truncating open (known finding)
 
-Priors   == {"absent", "own", "ownnoop", "ownlong", "ownstub", "owncase", "older", "garbage", "empty", "dir", "parentfile"}
+Priors   == {"absent", "own", "ownnoop", "ownlong", "ownstub", "owncase", "older", "garbage", "empty", "dir", "parentfile", "danglink"}
     \* own output of an earlier run with other flags: ownnoop (-fmt noop), ownlong (-with-resets, longer), ownstub (-stub),
-    \* owncase (a mock name that differs in letter case only); empty: a zero-byte file
+    \* owncase (a mock name that differs in letter case only); empty: a zero-byte file;
+    \* danglink: a symbolic link whose target does not exist (-rm removes the link, not what it points to)
 Mods     == {"tidy", "stale", "nobody", "badimport", "typeerr"}
     \* stale: go.mod lacks a requirement the go command could add if it were allowed to write;
     \* nobody: a function declared without a body (only the compiler objects, the type checker does not);
@@ -49,15 +50,17 @@ FlagKinds == {"none", "version", "help", "bad"}   \* -version / -h / an undefine
 
 (* scenarios that make sense together *)
 Scenarios ==
-    { [prior |-> p, rm |-> r, out |-> o, args |-> a, fault |-> f, mod |-> m, flag |-> g] :
-        p \in Priors, r \in BOOLEAN, o \in OutModes, a \in ArgKinds, f \in Faults, m \in Mods, g \in FlagKinds }
+    { [prior |-> p, rm |-> r, out |-> o, args |-> a, fault |-> f, mod |-> m, flag |-> g, stub |-> st] :
+        p \in Priors, r \in BOOLEAN, o \in OutModes, a \in ArgKinds, f \in Faults, m \in Mods, g \in FlagKinds, st \in BOOLEAN }
+    \* stub: the command line itself carries -stub (run() only hands it on; what matters is that the
+    \* mock at -out afterwards is the stub variant, whatever happened on the way - C07 at the command line)
 
 Sane(s) ==
     /\ (s.out = "stdout") => (s.prior = "absent" /\ s.fault \in {"none", "stdoutfull"})   \* -rm without -out: nothing to remove
     /\ (s.out # "stdout") => s.fault \in {"none", "write"}
     /\ (s.out = "newdir") => s.prior \in {"absent", "parentfile"}
     /\ (s.out = "file") => s.prior \notin {"parentfile", "owncase"}
-    /\ (s.out = "otherpkg") => (s.prior \in {"absent", "own", "owncase", "ownstub", "garbage"} /\ s.args \in {"ok", "okalias", "missing2", "flagslast"})
+    /\ (s.out = "otherpkg") => (s.prior \in {"absent", "own", "owncase", "ownstub", "garbage", "danglink"} /\ s.args \in {"ok", "okalias", "missing2", "flagslast"})
     /\ (s.prior = "owncase") => s.args = "okalias"
     /\ (s.args = "okalias") => s.out = "otherpkg"
     /\ (s.prior \in {"ownstub", "empty"}) => s.args \in {"ok", "ok2", "missing2"}
@@ -68,6 +71,9 @@ Sane(s) ==
     /\ (s.prior \in {"ownnoop", "ownlong"}) => (s.out = "file" /\ s.args \in {"ok", "ok2"})
     /\ (s.flag # "none") => (s.fault = "none" /\ s.mod = "tidy" /\ s.args \in {"ok", "none", "missing1"}
                               /\ s.prior \in {"absent", "own", "garbage"} /\ s.out \in {"stdout", "file"})
+    /\ s.stub => (s.prior \in {"absent", "own", "ownstub", "older"} /\ s.args = "ok" /\ s.fault = "none" /\ s.flag = "none"
+                  /\ s.mod = "tidy" /\ s.out \in {"file", "otherpkg"})
+    /\ (s.prior = "danglink") => (s.rm /\ s.out = "otherpkg" /\ s.args = "ok" /\ s.fault = "none" /\ s.flag = "none" /\ s.mod = "tidy" /\ ~s.stub)
     /\ (s.args = "flagslast") => (s.flag = "none" /\ s.fault = "none" /\ s.mod = "tidy" /\ s.prior \in {"absent", "own"})
     /\ (s.args = "one") => (s.flag = "none" /\ s.fault = "none" /\ s.mod = "tidy" /\ s.prior \in {"absent", "own"} /\ s.out \in {"stdout", "file"})
 
